@@ -79,7 +79,12 @@ type Run struct {
 	A    int   `json:"a"`
 	Tags []Tag `json:"tags"`
 	Ts   int   `json:"ts"`
+	// Col: the run carries a colour from another format (StyleAttributes.TTMLColor) that WebVTT expresses as a
+	// class: the atom is the class atom whose name is the CSS colour (2 = yellow = #ffff00); 0 = none
+	Col int `json:"col"`
 }
+
+var colourOf = map[int]string{2: "#ffff00"}
 
 type Line struct {
 	Voice int   `json:"voice"`
@@ -187,8 +192,10 @@ var texts = []map[int]string{
 	{1: "a & b &c; d", 2: "x < y <3 z", 3: "1 > 0"},
 	{1: "nb\u00a0sp", 2: "12", 3: "3"},
 	{1: "\U0001F600 non-BMP", 2: "ünï cödé 日本語", 3: "çà"},
+	// texts that literally contain entity-looking character sequences: they must survive one level of escaping
+	{1: "AT&amp;T literally", 2: "&lt;i&gt; is not a tag", 3: "&nbsp;x"},
 }
-var voices = []map[int]string{{1: "Esme"}, {1: "Mary Ann"}, {1: "هذا"}, {1: "中文"}}
+var voices = []map[int]string{{1: "Esme"}, {1: "Mary Ann"}, {1: "هذا"}, {1: "中文"}, {1: "Bob"}}
 
 func PoolFor(n int) Pool {
 	p := base
@@ -267,6 +274,7 @@ func Concretise(d Doc, p Pool) []byte {
 	if d.Bom {
 		b.Write([]byte{0xEF, 0xBB, 0xBF})
 	}
+	curHrs := true
 	for _, t := range d.Toks {
 		switch t.K {
 		case "header":
@@ -299,6 +307,7 @@ func Concretise(d Doc, p Pool) []byte {
 		case "id":
 			b.WriteString(strconv.Itoa(t.V))
 		case "timing":
+			curHrs = t.Hrs // inline timestamps of the cue follow the cue's own choice of writing the hours
 			b.WriteString(fmtTime(t.S, t.Hrs) + " --> " + fmtTime(t.E, t.Hrs))
 			sep := " "
 			if t.Tab {
@@ -336,7 +345,7 @@ func Concretise(d Doc, p Pool) []byte {
 				case "x":
 					b.WriteString(esc(p.Text[it.A]))
 				case "ts":
-					b.WriteString("<" + fmtTime(it.Ms, true) + ">")
+					b.WriteString("<" + fmtTime(it.Ms, curHrs || it.Ms >= 3600000) + ">")
 				}
 			}
 		}
@@ -569,8 +578,12 @@ func Build(g Truth, p Pool) *astisub.Subtitles {
 			line := astisub.Line{VoiceName: strOr(p.Voice, l.Voice)}
 			for _, r := range l.Runs {
 				li := astisub.LineItem{Text: p.Text[r.A], StartAt: time.Duration(r.Ts) * time.Millisecond}
-				if len(r.Tags) > 0 {
+				if len(r.Tags) > 0 || r.Col != 0 {
 					sa := &astisub.StyleAttributes{}
+					if r.Col != 0 {
+						c := colourOf[r.Col]
+						sa.TTMLColor = &c
+					}
 					for _, t := range r.Tags {
 						wt := astisub.WebVTTTag{Name: t.Name, Annotation: strOr(p.Ann, t.Ann)}
 						for _, cl := range t.Cls {
@@ -655,6 +668,14 @@ func Project(s *astisub.Subtitles, p Pool) Truth {
 			for _, li := range l.Items {
 				r := Run{A: rev(p.Text, li.Text), Ts: msOf(li.StartAt)}
 				if li.InlineStyle != nil {
+					if li.InlineStyle.TTMLColor != nil {
+						r.Col = -1
+						for a, c := range colourOf {
+							if c == *li.InlineStyle.TTMLColor {
+								r.Col = a
+							}
+						}
+					}
 					for _, t := range li.InlineStyle.WebVTTTags {
 						pt := Tag{Name: t.Name, Ann: zrev(p.Ann, t.Annotation)}
 						for _, cl := range t.Classes {
